@@ -217,6 +217,35 @@ fn analysis_items() -> Vec<Item> {
             v.push(Item { name: format!("analysis-call-at-module-end-{}-{}", cpu, k), cpu: cpu.into(), dump: build(&spec), symbols: HashMap::new(), corrupted: false });
         }
     }
+    // (1d) STACK WIN program strings whose arithmetic sits on the edges of 32-bit values (evaluated for the context frame), and crashing
+    //      instructions whose memory operand touches the last bytes of the address space
+    for (k, pro) in ["$T1 -2147483648 -1 / =", "$T1 -2147483648 -1 % =", "$T1 4 0 / =", "$T1 4 0 % =", "$T1 1 0 @ =", "$T1 4294967295 1 + =", "$T1 -1 -1 * =", "$T1 0 1 - ="].into_iter().enumerate() {
+        let mut spec = DumpSpec { os: "windows".into(), cpu: "x86".into(), ..DumpSpec::default() };
+        let mut stack = vec![0u8; 64];
+        stack[0..4].copy_from_slice(&0x400120u32.to_le_bytes());
+        spec.threads.push(ThreadSpec { id: 1, ctx_ok: true, name: None, ip: 0x400310, sp: 0x10000, stack_base: 0x10000, stack });
+        spec.modules = vec![ModuleSpec { base: 0x400000, size: 0x1000, name: "m1".into() }];
+        let mut symbols = HashMap::new();
+        symbols.insert("m1".to_string(), format!("MODULE windows x86 000 m1\nFUNC 100 100 0 f\nFUNC 300 100 0 g\nSTACK WIN 4 300 100 0 0 0 0 0 0 1 {} $T0 .raSearch = $eip $T0 ^ = $esp $T0 4 + =\n", pro));
+        v.push(Item { name: format!("analysis-stackwin-arith-{}", k), cpu: "x86".into(), dump: build(&spec), symbols, corrupted: false });
+    }
+    for (k, (op, val)) in [(&[0x48u8, 0x8b, 0x03][..], 0xffff_ffff_ffff_fff8u64), (&[0x48, 0x8b, 0x03][..], 0xffff_ffff_ffff_fffc), (&[0x8a, 0x03][..], 0xffff_ffff_ffff_ffff),
+                           (&[0x48, 0x89, 0x03][..], 0xffff_ffff_ffff_fffd), (&[0x48, 0x8b, 0x43, 0x7f][..], 0xffff_ffff_ffff_ff81), (&[0xff, 0x03][..], 0xffff_ffff_ffff_fffe)].into_iter().enumerate() {
+        for (code, info0) in [(0xC000_0005u32, 0u64), (0xC000_0005, 1)] {
+            let mut spec = DumpSpec { os: "windows".into(), cpu: "amd64".into(), ..DumpSpec::default() };
+            spec.threads.push(ThreadSpec { id: 1, ctx_ok: true, name: None, ip: 0x400150, sp: 0x10008, stack_base: 0x10000, stack: vec![0u8; 64] });
+            spec.modules = vec![ModuleSpec { base: 0x400000, size: 0x1000, name: "m1".into() }];
+            spec.memory_info = vec![RegionSpec { base: 0x10000, size: 0x8000, protection: 4, state: 0x1000 }, RegionSpec { base: 0x400000, size: 0x1000, protection: 0x20, state: 0x1000 }];
+            let mut bytes = op.to_vec();
+            bytes.resize(16, 0x90);
+            spec.extra_memory.push((0x400150, bytes)); // mov rax,[rbx] / mov al,[rbx] / mov [rbx],rax / mov rax,[rbx+0x7f] / inc dword [rbx]
+            let mut info = [0u64; 15];
+            info[0] = info0;
+            info[1] = val;
+            spec.exception = Some(ExcSpec { tid: 1, has_ctx: true, ctx_ok: true, ctx_ip: 0x400150, ctx_sp: 0x10008, code, flags: 0, address: 0x400150, nparams: 2, info, ctx_patch: vec![(144usize, val)] });
+            v.push(Item { name: format!("analysis-access-at-top-{}-{}", k, info0), cpu: "amd64".into(), dump: build(&spec), symbols: HashMap::new(), corrupted: false });
+        }
+    }
     // (1b) the dump header has no time stamp (zeroed here) but the process start time is known: anything
     //      derived from "the time of the crash" must come from the dump, not from the clock.  The name asks the determinism
     //      recorder to let a second pass before the last run.
